@@ -308,8 +308,10 @@ static int flt_load(struct module_data *m, HIO_HANDLE * f, const int start)
 	/* See if we have the synth parameters file */
 	am_synth = 0;
 	nt = NULL;
-	/* Only look for it when loading from a path. */
-	if (m->dirname != NULL && m->basename != NULL) {
+	/* Only look for it when loading from a path, and only when the name
+	 * fits: a truncated name is a different file in another directory. */
+	if (m->dirname != NULL && m->basename != NULL &&
+	    strlen(m->dirname) + strlen(m->basename) + 3 < sizeof(filename)) {
 		snprintf(filename, 1024, "%s%s.NT", m->dirname, m->basename);
 		nt = hio_open(filename, "rb");
 		if (nt == NULL) {
